@@ -3,6 +3,7 @@ import BM.Props.Pins
 import BM.Props.C12
 import BM.Proofs.Prov
 import BM.Proofs.ProvC
+import BM.Proofs.HardenGo
 /-
   C11 composed: from the hardening block to the whole of `sanitizeAttrs`, and to the bytes.
   The later passes (forced crossorigin / sandbox) leave href and rel attributes alone, so what
